@@ -147,3 +147,65 @@ class quiet_numpy:
         self._w.__exit__(*a)
         self._e.__exit__(*a)
         return False
+
+
+# ------------------------------------------------------------------------------------------
+# per-case guard for pool workers: no exception escapes because of what the library returns or raises
+# ------------------------------------------------------------------------------------------
+GUARD_WITNESS = """
+import importlib
+nan, inf = float("nan"), float("inf")
+case = {case}
+# re-runs the driver's own judge on this single case: it must neither raise nor report a failure
+out = getattr(importlib.import_module({modname!r}), {fname!r})([case])
+assert not out[3], [(f["clause"], f["cls"], f["detail"][:300]) for f in out[3]][:3]
+"""
+
+
+def _guarded_call(modname, fname, clause, cases):
+    """Run `modname.fname([case])` for every case separately.  An exception raised while a case is run or judged (the
+    oracle fed None / NaN / object cells / wrong shapes by a changed library, exact-arithmetic conversions, witness
+    construction) is returned as data: a violation of `clause` with class `oracle-not-applicable:<ExceptionType>`."""
+    import importlib
+    import traceback
+
+    worker = getattr(importlib.import_module(modname), fname)
+    acc = WorkResult()
+    for c in cases:
+        try:
+            n, keys, samples, failures, stats = worker([c])
+        except Exception as e:  # noqa: BLE001 - returned as data, never kills the pool
+            acc.case(("guard", fname, repr(c)[:400]), True)
+            try:
+                wcode = code(GUARD_WITNESS.format(case=repr(c), modname=modname, fname=fname))
+            except Exception:  # noqa: BLE001
+                wcode = "raise AssertionError('case could not be rendered')"
+            acc.fail(clause, f"oracle-not-applicable:{type(e).__name__}", {"case": repr(c)[:2000], "code": wcode},
+                     f"{type(e).__name__}: {e}\n" + traceback.format_exc()[-1500:])
+            continue
+        acc.n += n
+        acc.keys |= keys
+        for smp in samples:
+            if len(acc.samples) < 2:
+                acc.samples.append(smp)
+        seen = Counter()
+        for f in failures:
+            seen[(f["clause"], f["cls"])] += 1
+            acc.fail(f["clause"], f["cls"], f["witness"], f.get("detail", ""))
+        for k, v in stats.items():
+            if k[0] == "fail":
+                extra = v - seen[(k[1], k[2])]
+                if extra > 0:
+                    acc.stats[k] += extra
+            elif k[0] == "max":
+                acc.stats[k] = max(acc.stats.get(k, 0.0), v)
+            else:
+                acc.stats[k] += v
+    return acc.pack()
+
+
+def guard(modname, fname, clause):
+    """picklable worker for `pmap`: the named worker applied case by case under `_guarded_call`"""
+    import functools
+
+    return functools.partial(_guarded_call, modname, fname, clause)
